@@ -277,6 +277,16 @@ class Ctx:
                 else:
                     good += 1
             self.discharged = good
+        if ok and self.tier == "thorough":
+            # independent re-check of the compiled property files by the toolchain's leanchecker
+            t = time.time()
+            mods = [f"YncaVerif.Props.{pid}"] + [f"YncaVerif.Props.{x}" for x in extra_props]
+            with Lock("lake.lock"):
+                r = subprocess.run(["lake", "env", "leanchecker", *mods], cwd=LEAN, capture_output=True, text=True, timeout=3000)
+            self.info["leanchecker_s"] = round(time.time() - t, 1)
+            self.cov["leanchecker"] = "ok" if r.returncode == 0 else "FAILED"
+            if r.returncode != 0:
+                self.broken.append({"kind": "leanchecker", "modules": mods, "log_tail": (r.stdout + r.stderr)[-2000:]})
         fb = forbidden_tokens()
         if fb:
             self.broken.append({"kind": "forbidden_tokens", "hits": fb[:20]})
